@@ -17,18 +17,19 @@ import (
 
 // Violation is one refuting observation.
 type Violation struct {
-	Prop   string      `json:"property"`
-	Key    string      `json:"key"` // narrow signature: call site / input class, matched against KNOWN_FINDINGS.txt
-	Msg    string      `json:"message"`
-	Also   string      `json:"also,omitempty"`
-	Tier   string      `json:"tier"`
-	Seed   uint64      `json:"seed"`
-	Phase  int         `json:"phase"`
-	Index  int         `json:"index"`
-	Case   interface{} `json:"case,omitempty"`
-	Stack  string      `json:"stack,omitempty"`
-	Replay string      `json:"replay_path,omitempty"`
-	Env    string      `json:"environment,omitempty"` // process-wide setting in force when the case ran (replay restores it)
+	Prop    string      `json:"property"`
+	Key     string      `json:"key"` // narrow signature: call site / input class, matched against KNOWN_FINDINGS.txt
+	Msg     string      `json:"message"`
+	Also    string      `json:"also,omitempty"`
+	Tier    string      `json:"tier"`
+	Seed    uint64      `json:"seed"`
+	Phase   int         `json:"phase"`
+	Index   int         `json:"index"`
+	Case    interface{} `json:"case,omitempty"`
+	Stack   string      `json:"stack,omitempty"`
+	Replay  string      `json:"replay_path,omitempty"`
+	Env     string      `json:"environment,omitempty"`         // process-wide setting in force when the case ran (replay restores it)
+	ProcEnv string      `json:"process_environment,omitempty"` // environment variables the shard process was started with beyond the caller's (space separated KEY=VALUE; replay restarts itself with them)
 }
 
 // ShardResult is what one child process reports.
@@ -182,6 +183,10 @@ func (r *Recorder) ViolateStack(key, msg string, c interface{}, stack string) {
 	v := Violation{Prop: r.res.Prop, Key: key, Msg: msg, Tier: r.Tier, Seed: r.Seed, Phase: r.curPhase, Index: r.curIndex, Case: c, Stack: stack, Env: r.env}
 	if r.env != "" {
 		v.Msg += " [" + r.env + "]"
+	}
+	if pe := os.Getenv("VERIF_PROC_ENV"); pe != "" {
+		v.ProcEnv = pe
+		v.Msg += " [process started with " + pe + "]"
 	}
 	v.Replay = r.writeReplay(&v)
 	r.res.Violations = append(r.res.Violations, v)
